@@ -27,8 +27,8 @@ PID = "C10"
 META = {
     "ready": True,
     "category": "proof",
-    "technique": "Lean 4 proofs over an executable model of the numeric tower (fixnum / bignum / 32-bit ratio / big ratio with the IntoSteelVal canonicalisation and the checked-then-promote case analysis of numbers.rs), refinement to Lean's Rat for all operands; number<->string round trip over C12's model of the lexer's number parser; model of the variadic primitives, of every arithmetic/comparison op code of the interpreter and of the constant folder, with shape-independence theorems; arm tables, repair flags and the op-code / registration / emission tables regenerated from the Rust source and decided against the model; correspondence of the real engine with model and specification over boundary operand tuples through 8-17 call shapes, variadic calls, radix conversions and generated string->number texts; mixed exact/inexact arithmetic compared with IEEE-754 / exact-value reference results (test level)",
-    "level_text": "Theorems (SteelVerif/C10/Props.lean), for ALL canonical exact operands of any magnitude: + - * / with any number of operands (add/mul/sub/div_variadic_exact; division by zero, also of a product of divisors, is an error), negate, quotient, remainder, modulo, abs, gcd, lcm, expt (fixnum exponent; bignum exponent on the bases 0, 1, -1), numerator, denominator and exact-integer-sqrt of the model return a value that denotes the mathematically exact result (Lean Rat / Int) and is canonical (fixnum iff it fits 64 bits, ratio reduced with denominator > 1, 32-bit ratio iff both parts fit, integral ratios are integers); = < > <= >= decide the order of the denoted values; two canonical values that denote the same number are identical; number_string_roundtrip: string->number (number->string x r) r = x for every radix 2..16 (number->string follows format_number, string->number is C12's model of parse_number followed by real_literal_to_steelval); shape_independent: each of the 19 arithmetic/comparison op codes of the interpreter (ADD SUB MUL DIV BINOPADD BINOPADDTAIL NUMEQUAL LTE LT GT GTE ADD/SUB/LTEREGISTER SUBREGISTER1 ADD/SUB/LTEIMMEDIATE LTEIMMEDIATEIF) computes, on every operand list the compiler can emit it with, what the function registered under the primitive's name computes (content: add_two_fallible vs add_primitive, windows(2).all vs the ord_internal loop, the inline fixnum path of SUBIMMEDIATE), with op_tables_as_modelled deciding that the op-code -> function, name -> function and emission tables extracted from vm.rs / program.rs / code_gen.rs are the model's; fold_is_call: a constant call folded at compile time (result written back as a literal and read again) yields the value of the call. Where the code is defective (abs / reciprocal / expt on the most negative 64-bit and 32-bit values, 32-bit ratio powers, negative bases with negative exponents) the full statement is proved for the repaired code and a guarded `_partial` statement plus a `decide`d counterexample for the code as it is; flags extracted from the Rust source say which applies to the current tree; string->number is NOT total in the code as it is (K10g, decide-d witness, replayed). The clauses no theorem carries (mixed exact/inexact, native-code versions, string->number on texts number->string does not produce, unrepresentable powers) are listed at the end of Props.lean. Tie: translators on every run, and the real engine executed on boundary operand tuples through every call shape (plus variadic calls with 0..5 operands, radix conversions 2..16, ~150/4000 generated string->number texts) with printed results compared with model and specification; the driver also evaluates runOp of every applicable op code and the folder against the generic call on every variadic request. Mixed exact/inexact operations and comparisons are NOT proved: they are tested against 'convert with round-to-nearest, then IEEE binary64' and against the exact values.",
+    "technique": "Lean 4 proofs over an executable model of the numeric tower (fixnum / bignum / 32-bit ratio / big ratio with the IntoSteelVal canonicalisation and the checked-then-promote case analysis of numbers.rs), refinement to Lean's Rat for all operands; number<->string round trip over C12's model of the lexer's number parser; model of the variadic primitives, of every arithmetic/comparison op code of the interpreter and of the constant folder, with shape-independence theorems; arm tables, repair flags and the op-code / registration / emission tables regenerated from the Rust source and decided against the model; correspondence of the real engine with model and specification over boundary operand tuples through 8-17 call shapes, variadic calls, radix conversions and generated string->number texts; executable model of the mixed exact/inexact arms (which operand is converted and how; comparison on decoded doubles) run with the machine's IEEE operations, bit patterns compared with the real engine and with an IEEE-754 / exact-value reference",
+    "level_text": "Theorems (SteelVerif/C10/Props.lean), for ALL canonical exact operands of any magnitude: + - * / with any number of operands (add/mul/sub/div_variadic_exact; division by zero, also of a product of divisors, is an error), negate, quotient, remainder, modulo, abs, gcd, lcm, expt (fixnum exponent; bignum exponent on the bases 0, 1, -1), numerator, denominator and exact-integer-sqrt of the model return a value that denotes the mathematically exact result (Lean Rat / Int) and is canonical (fixnum iff it fits 64 bits, ratio reduced with denominator > 1, 32-bit ratio iff both parts fit, integral ratios are integers); = < > <= >= decide the order of the denoted values; two canonical values that denote the same number are identical; number_string_roundtrip: string->number (number->string x r) r = x for every radix 2..16 (number->string follows format_number, string->number is C12's model of parse_number followed by real_literal_to_steelval); shape_independent: each of the 19 arithmetic/comparison op codes of the interpreter (ADD SUB MUL DIV BINOPADD BINOPADDTAIL NUMEQUAL LTE LT GT GTE ADD/SUB/LTEREGISTER SUBREGISTER1 ADD/SUB/LTEIMMEDIATE LTEIMMEDIATEIF) computes, on every operand list the compiler can emit it with, what the function registered under the primitive's name computes (content: add_two_fallible vs add_primitive, windows(2).all vs the ord_internal loop, the inline fixnum path of SUBIMMEDIATE), with op_tables_as_modelled deciding that the op-code -> function, name -> function and emission tables extracted from vm.rs / program.rs / code_gen.rs are the model's; fold_is_call: a constant call folded at compile time (result written back as a literal and read again) yields the value of the call. Where the code is defective (abs / reciprocal / expt on the most negative 64-bit and 32-bit values, 32-bit ratio powers, negative bases with negative exponents) the full statement is proved for the repaired code and a guarded `_partial` statement plus a `decide`d counterexample for the code as it is; flags extracted from the Rust source say which applies to the current tree; string->number is NOT total in the code as it is (K10g, decide-d witness, replayed). The clauses no theorem carries (mixed exact/inexact, native-code versions, string->number on texts number->string does not produce, unrepresentable powers) are listed at the end of Props.lean. Tie: translators on every run, and the real engine executed on boundary operand tuples through every call shape (plus variadic calls with 0..5 operands, radix conversions 2..16, ~150/4000 generated string->number texts) with printed results compared with model and specification; the driver also evaluates runOp of every applicable op code and the folder against the generic call on every variadic request. Mixed exact/inexact (SteelVerif/C10/Mixed.lean: doubles as 64 bits, the IEEE operations a parameter): mixed_converts_exact_operand_only (for + - *: the double's bits reach the IEEE operation unchanged, the exact operand — after an EXACT negation for subtraction — is converted once, and each of the four conversions of the code is 'round the denoted rational'), mixed_division_shape (the code divides through the exactly computed reciprocal: two roundings, finding K10e, flag regenerated), cmp_exact_with_float_correct / _special / mixed_order_consistent / mixed_nan_all_false (comparison of any canonical exact number with any finite double = comparison of the two rationals, the double decoded as a dyadic fraction; NaN unordered, infinities at the ends), mixed_tables_as_modelled (the 12 mixed arms, the NaN/inf answers and the 2^53 fast-path guard extracted from the source). What the IEEE operations compute, and that roundQ / the Rust conversions are correctly rounded, is NOT proved: the driver runs the model with the machine's operations and its bits are compared with the real engine (all evaluations equal) and with an independent CPython oracle.",
     "level_note": "Trusted: Lean kernel (axioms propext, Classical.choice, Quot.sound only), the hand-written model (num-bigint / Ratio<BigInt> taken as exact, Ratio<i32>, i32::gcd, isize/i32 checked and overflowing operations modelled from their source; radix_fmt / to_str_radix / from_str_radix taken to be positional notation), C12's model of parse_number (imported), the translators' pattern extraction (c10_arms.py, c10_ops.py), the harness, driver and comparison, and CPython's int/float/Fraction for the mixed part. That the compiler emits an op code only under the extracted rule is a reading of the source, not a compiler semantics. floor/round/truncate on ratios, exponents with |e| > 4096 (other than bignum exponents on 0, +-1) are not covered. Overflow is modelled as in a build with overflow checks (panic); a release build wraps instead: same failing inputs, wrong value instead of panic.",
 }
 
@@ -39,7 +39,7 @@ BIN = "c10"
 # against that tree (then the cargo build of /verif/harness is skipped).
 ALT_REPO = os.environ.get("VERIF_C10_REPO")
 ALT_BIN = os.environ.get("VERIF_C10_BIN")
-UNARY = ["neg", "recip", "abs", "numerator", "denominator", "isqrt", "tostr", "roundtrip"]
+UNARY = ["neg", "recip", "abs", "numerator", "denominator", "isqrt", "tostr", "roundtrip", "tof64"]
 BINARY = ["add", "sub", "mul", "div", "quotient", "remainder", "modulo", "gcd", "lcm", "expt",
           "eq", "lt", "gt", "le", "ge"]
 INT_ONLY = {"quotient", "remainder", "modulo", "gcd", "lcm", "isqrt"}
@@ -453,6 +453,15 @@ def gen_mixed(seed, quick):
     exacts += [Fraction(1, 3), Fraction(-1, 3), Fraction(1, 10), Fraction(2 ** 31 - 1, 2), Fraction(-2 ** 31, 3),
                Fraction(2 ** 53 + 1, 2), Fraction(10 ** 30, 3), Fraction(1, 10 ** 400), Fraction(10 ** 400, 3),
                Fraction(3, 2 ** 63), Fraction(2 ** 64 + 1, 2 ** 53)]
+    # neighbours: doubles next to 2^53 / 2^63 / 0.1 / 1/3, exact numbers equal to a double or one part in 2^80 off it,
+    # fixnums around the 2^53 fast-path guard of cmp_exact_with_float, isize::MAX against 2^63
+    for f in (2.0 ** 53, 2.0 ** 63, 0.1, 1.0 / 3.0, 1e19, 4.5e15):
+        floats += [math.nextafter(f, math.inf), math.nextafter(f, -math.inf), -f]
+    for f in (0.1, 1.0 / 3.0, 2.0 ** 53 + 2, 1e19, 5e-324, 2.2250738585072014e-308, 1.7976931348623157e308):
+        q = Fraction(f)
+        exacts += [q, q + Fraction(1, 2 ** 80) * q, q - Fraction(1, 2 ** 80) * q, -q]
+    exacts += [Fraction(v) for v in (2 ** 53 + 2, 2 ** 53 + 3, -2 ** 53, -2 ** 53 - 1, 2 ** 54 + 1, 2 ** 63 - 2 ** 9, 2 ** 63 - 2 ** 10,
+                                     2 ** 63 - 2 ** 10 + 1, 2 ** 63 + 2 ** 11, 2 ** 63 + 2 ** 10, 2 ** 1024, 2 ** 1024 - 2 ** 970)]
     if not quick:
         for _ in range(60):
             floats.append(struct.unpack(">d", struct.pack(">Q", rng.getrandbits(64)))[0])
@@ -467,7 +476,7 @@ def gen_mixed(seed, quick):
                     continue                          # exact zero divisor: Steel reports division by zero
                 reqs.append((op, [e, f]))
                 reqs.append((op, [f, e]))
-    reqs = rng.sample(reqs, min(len(reqs), 1500 if quick else 40000))
+    reqs = rng.sample(reqs, min(len(reqs), 1800 if quick else 60000))
     lines = []
     for op, xs in reqs:
         if op == "div" and not isinstance(xs[1], float) and xs[1] == 0:
@@ -486,17 +495,35 @@ def compare_mixed(ctx, stats, env=None, items=None):
     if items is None:
         items = gen_mixed(ctx.seed, ctx.quick())
     reals = run_real([l for (l, _, _) in items], env)
+    # the model of Mixed.lean run with the machine's IEEE operations: column 1 = the code as it is (division through the
+    # reciprocal while K10e is open), column 2 = the same with one IEEE division
+    model, why = run_model([l for (l, _, _) in items]) if items else ([], "")
+    if model is None:
+        ctx.violation("C10-driver-failed.txt", "model driver failed on the mixed requests: %s\n" % why, no_input=True)
+        model = [("?", "?")] * len(items)
     known = {k.get("class"): k for k in ctx.load_known()}
-    ms = stats.setdefault("mixed", {"requests": 0, "evaluations": 0, "agree": 0})
-    for (line, op, xs), shapes in zip(items, reals):
+    ms = stats.setdefault("mixed", {"requests": 0, "evaluations": 0, "agree": 0, "model_agrees_with_real": 0,
+                                    "one_division_model_equals_oracle": 0})
+    for (line, op, xs), shapes, (m, m1) in zip(items, reals, model):
         want = mixed_oracle(op, xs)
         ms["requests"] += 1
+        if m1 == want or (op == "div" and not isinstance(xs[1], float) and xs[1] == 0):
+            ms["one_division_model_equals_oracle"] += 1
+        elif m != "?":
+            stats["pending"].append((line, "model", m1, m, want, "mixed: the model with one IEEE division differs from the IEEE oracle"))
         for sh, raw in shapes:
             ms["evaluations"] += 1
             r = norm_float_text(norm_real(raw))
+            if m != "?":
+                if r == m:
+                    ms["model_agrees_with_real"] += 1
+                elif r != "panic":
+                    stats["pending"].append((line, sh, raw, m, want, "mixed: real differs from the model of Mixed.lean"))
             if r == want:
                 ms["agree"] += 1
                 continue
+            if m != "?" and r != m:
+                continue                      # already reported as a correspondence failure (not attributable to a finding)
             if r == "panic":
                 cls = "mixed_panic"
             elif op in MIXED_CMP:
@@ -508,7 +535,7 @@ def compare_mixed(ctx, stats, env=None, items=None):
             else:
                 cls = "mixed_arithmetic_conversion"
             bucket = stats["known" if cls in known else "viol"].setdefault(cls, [])
-            bucket.append((len(line), line, sh, raw, "(no model: test level)", want))
+            bucket.append((len(line), line, sh, raw, m, want))
 
 
 # --------------------------------------------------------------------------------------------------
@@ -544,6 +571,17 @@ def compare(ctx, reqs, label, stats, env=None):
             r = norm_real(raw)
             if sh in ("operand", "bad", "?") and not r == "panic":
                 stats["pending"].append((req, sh, raw, m, s, "harness could not run the request"))
+                continue
+            if op == "tof64":
+                # the four exact -> double conversions of the code (exact->inexact uses the same ones as the mixed arms):
+                # oracle = the exact value rounded to nearest-even (CPython int / int), model = Mixed.roundQ
+                want = f2hex(to_double(xs[0]))
+                if r != want:
+                    record(ctx, stats, known, "exact_to_inexact_conversion", op, xs, req, sh, raw, m, want)
+                elif m != r:
+                    stats["pending"].append((req, sh, raw, m, want, "exact->inexact: model roundQ differs from the real conversion"))
+                else:
+                    stats["agree"] += 1
                 continue
             if op == "s2n":
                 # arbitrary texts: the oracle is totality (no panic); the model (C12's parse_number + real_literal_to_steelval)
